@@ -1622,3 +1622,8 @@ def regen_enum_facts():
             with open(path, "w") as f:
                 f.write(text)
     return path
+
+
+# regenerated inside the critical section of core.lean_obligations as well (same Gen/ tables for build and audit)
+if regen_enum_facts not in core.FACT_HOOKS:
+    core.FACT_HOOKS.append(regen_enum_facts)
